@@ -229,21 +229,111 @@ theorem newRoundPrep_inv {cfg : Config} {σ : State} (I : Inv cfg σ) (r : Nat)
     · rw [h] at hb; exact I.pb blk hb
     · rw [h] at hb; cases hb
 
+/-! ### `releaseStale` (F36 fix) -/
+
+theorem releaseStale_cases (cfg : Config) (σ : State) :
+    releaseStale cfg σ = σ ∨
+    (releaseStale cfg σ = unlock σ ∧ ∃ lb, σ.locked = some lb ∧ stalePolka cfg σ lb.id = true) := by
+  unfold releaseStale
+  split
+  · rename_i lb hl
+    split
+    · rename_i hs; exact Or.inr ⟨rfl, lb, hl, hs⟩
+    · exact Or.inl rfl
+  · exact Or.inl rfl
+
+/-- what `stalePolka` found: a polka for another value at a round in `(lockedRound, round]` -/
+theorem stalePolka_spec {cfg : Config} {σ : State} {b : Nat} (h : stalePolka cfg σ b = true) :
+    ∃ r' x, σ.lockedRound < r' ∧ r' ≤ σ.round ∧ x ≠ some b ∧
+      maj23 cfg.powers (σ.slots .prevote σ.height r') = some x := by
+  unfold stalePolka at h
+  rw [List.any_eq_true] at h
+  obtain ⟨r', hr', hc⟩ := h
+  rw [List.mem_range] at hr'
+  simp only [Bool.and_eq_true, decide_eq_true_eq] at hc
+  obtain ⟨h1, h2⟩ := hc
+  cases hm : maj23 cfg.powers (σ.slots .prevote σ.height r') with
+  | none => rw [hm] at h2; cases h2
+  | some x =>
+    rw [hm] at h2
+    exact ⟨r', x, h1, by omega, by simpa using h2, hm⟩
+
+/-- and conversely: if there is one, `stalePolka` finds it -/
+theorem stalePolka_complete {cfg : Config} {σ : State} {b r' : Nat} {x : Target} (h1 : σ.lockedRound < r')
+    (h2 : r' ≤ σ.round) (h3 : x ≠ some b) (h4 : maj23 cfg.powers (σ.slots .prevote σ.height r') = some x) :
+    stalePolka cfg σ b = true := by
+  unfold stalePolka
+  rw [List.any_eq_true]
+  refine ⟨r', List.mem_range.mpr (by omega), ?_⟩
+  simp only [Bool.and_eq_true, decide_eq_true_eq]
+  refine ⟨h1, ?_⟩
+  rw [h4]
+  simpa using h3
+
+@[simp] theorem releaseStale_height (cfg : Config) (σ : State) : (releaseStale cfg σ).height = σ.height := by
+  rcases releaseStale_cases cfg σ with e | ⟨e, -⟩ <;> rw [e] <;> rfl
+@[simp] theorem releaseStale_round (cfg : Config) (σ : State) : (releaseStale cfg σ).round = σ.round := by
+  rcases releaseStale_cases cfg σ with e | ⟨e, -⟩ <;> rw [e] <;> rfl
+@[simp] theorem releaseStale_step (cfg : Config) (σ : State) : (releaseStale cfg σ).step = σ.step := by
+  rcases releaseStale_cases cfg σ with e | ⟨e, -⟩ <;> rw [e] <;> rfl
+@[simp] theorem releaseStale_votes (cfg : Config) (σ : State) : (releaseStale cfg σ).votes = σ.votes := by
+  rcases releaseStale_cases cfg σ with e | ⟨e, -⟩ <;> rw [e] <;> rfl
+@[simp] theorem releaseStale_log (cfg : Config) (σ : State) : (releaseStale cfg σ).log = σ.log := by
+  rcases releaseStale_cases cfg σ with e | ⟨e, -⟩ <;> rw [e] <;> rfl
+@[simp] theorem releaseStale_seen (cfg : Config) (σ : State) : (releaseStale cfg σ).seen = σ.seen := by
+  rcases releaseStale_cases cfg σ with e | ⟨e, -⟩ <;> rw [e] <;> rfl
+
+@[simp] theorem releaseStale_sched (cfg : Config) (σ : State) : (releaseStale cfg σ).sched = σ.sched := by
+  rcases releaseStale_cases cfg σ with e | ⟨e, -⟩ <;> rw [e] <;> rfl
+@[simp] theorem releaseStale_ttp (cfg : Config) (σ : State) : (releaseStale cfg σ).ttp = σ.ttp := by
+  rcases releaseStale_cases cfg σ with e | ⟨e, -⟩ <;> rw [e] <;> rfl
+@[simp] theorem releaseStale_commitRound (cfg : Config) (σ : State) : (releaseStale cfg σ).commitRound = σ.commitRound := by
+  rcases releaseStale_cases cfg σ with e | ⟨e, -⟩ <;> rw [e] <;> rfl
+@[simp] theorem releaseStale_halted (cfg : Config) (σ : State) : (releaseStale cfg σ).halted = σ.halted := by
+  rcases releaseStale_cases cfg σ with e | ⟨e, -⟩ <;> rw [e] <;> rfl
+@[simp] theorem releaseStale_proposal (cfg : Config) (σ : State) : (releaseStale cfg σ).proposal = σ.proposal := by
+  rcases releaseStale_cases cfg σ with e | ⟨e, -⟩ <;> rw [e] <;> rfl
+@[simp] theorem releaseStale_pblock (cfg : Config) (σ : State) : (releaseStale cfg σ).pblock = σ.pblock := by
+  rcases releaseStale_cases cfg σ with e | ⟨e, -⟩ <;> rw [e] <;> rfl
+@[simp] theorem releaseStale_parts (cfg : Config) (σ : State) : (releaseStale cfg σ).parts = σ.parts := by
+  rcases releaseStale_cases cfg σ with e | ⟨e, -⟩ <;> rw [e] <;> rfl
+@[simp] theorem releaseStale_hvsRound (cfg : Config) (σ : State) : (releaseStale cfg σ).hvsRound = σ.hvsRound := by
+  rcases releaseStale_cases cfg σ with e | ⟨e, -⟩ <;> rw [e] <;> rfl
+@[simp] theorem releaseStale_catchup (cfg : Config) (σ : State) : (releaseStale cfg σ).catchup = σ.catchup := by
+  rcases releaseStale_cases cfg σ with e | ⟨e, -⟩ <;> rw [e] <;> rfl
+@[simp] theorem releaseStale_validRound (cfg : Config) (σ : State) : (releaseStale cfg σ).validRound = σ.validRound := by
+  rcases releaseStale_cases cfg σ with e | ⟨e, -⟩ <;> rw [e] <;> rfl
+@[simp] theorem releaseStale_validB (cfg : Config) (σ : State) : (releaseStale cfg σ).validB = σ.validB := by
+  rcases releaseStale_cases cfg σ with e | ⟨e, -⟩ <;> rw [e] <;> rfl
+@[simp] theorem releaseStale_added (cfg : Config) (σ : State) : (releaseStale cfg σ).added = σ.added := by
+  rcases releaseStale_cases cfg σ with e | ⟨e, -⟩ <;> rw [e] <;> rfl
+
+theorem releaseStale_unlocked (cfg : Config) (σ : State) (h : σ.locked = none) : releaseStale cfg σ = σ := by
+  unfold releaseStale
+  rw [h]
+
+theorem releaseStale_inv {cfg : Config} {σ : State} (I : Inv cfg σ) : Inv cfg (releaseStale cfg σ) := by
+  rcases releaseStale_cases cfg σ with e | ⟨e, -⟩
+  · rw [e]; exact I
+  · rw [e]; exact unlock_inv I
+
 theorem enterNewRound_inv {cfg : Config} {σ : State} (I : Inv cfg σ) (nb : Option Nat) (h r : Nat) :
     Inv cfg (enterNewRound cfg nb h r σ) := by
   unfold enterNewRound
   split
   · exact I
-  · rename_i hg
-    have hh : h = σ.height := by omega
-    have J := newRoundPrep_inv I r (fun hc => hg (Or.inr hc))
-    obtain ⟨extra, hh', hr', -⟩ := newRoundPrep_spec cfg r σ
-    simp only
-    split
-    · split
-      · exact J.schedule h r .newRound (by rw [hh', hr', hh]; unfold le3; omega)
-      · exact J
-    · exact enterPropose_inv J nb h r (by rw [hr']; exact Nat.le_refl _)
+  · split
+    · exact I
+    · rename_i hg _
+      have hh : h = σ.height := by omega
+      have J := releaseStale_inv (newRoundPrep_inv I r (fun hc => hg (Or.inr hc)))
+      obtain ⟨extra, hh', hr', -⟩ := newRoundPrep_spec cfg r σ
+      simp only
+      split
+      · split
+        · exact J.schedule h r .newRound (by rw [releaseStale_height, releaseStale_round, hh', hr', hh]; unfold le3; omega)
+        · exact J
+      · exact enterPropose_inv J nb h r (by rw [releaseStale_round, hr']; exact Nat.le_refl _)
 
 /-! round facts needed at the call sites -/
 
@@ -267,18 +357,36 @@ theorem enterPropose_round_ge (cfg : Config) (nb : Option Nat) (h r : Nat) (σ :
       · omega
     exact key _ rfl
 
-theorem enterNewRound_round_ge (cfg : Config) (nb : Option Nat) (r : Nat) (σ : State) :
+/-- not in the commit step (F37: there `enterNewRound` returns): the node is at round `r` or later -/
+theorem enterNewRound_round_ge (cfg : Config) (nb : Option Nat) (r : Nat) (σ : State) (hc : σ.step ≠ .commit) :
     r ≤ (enterNewRound cfg nb σ.height r σ).round := by
   unfold enterNewRound
-  split
-  · rename_i hg; omega
-  · obtain ⟨extra, hh', hr', -⟩ := newRoundPrep_spec cfg r σ
+  by_cases hg : σ.height ≠ σ.height ∨ r < σ.round ∨ (σ.round = r ∧ σ.step ≠ .newHeight)
+  · rw [if_pos hg]; omega
+  · rw [if_neg hg, if_neg hc]
+    obtain ⟨extra, hh', hr', -⟩ := newRoundPrep_spec cfg r σ
     simp only
     split
     · split
       · simp [hr']
-      · omega
-    · exact enterPropose_round_ge cfg nb _ r _ hr'
+      · rw [releaseStale_round]; omega
+    · exact enterPropose_round_ge cfg nb _ r _ (by rw [releaseStale_round]; exact hr')
+
+/-- `enterNewRound` does nothing in the commit step (F37 fix) -/
+theorem enterNewRound_commit (cfg : Config) (nb : Option Nat) (h r : Nat) (σ : State) (hc : σ.step = .commit) :
+    enterNewRound cfg nb h r σ = σ := by
+  unfold enterNewRound
+  by_cases hg : σ.height ≠ h ∨ r < σ.round ∨ (σ.round = r ∧ σ.step ≠ .newHeight)
+  · rw [if_pos hg]
+  · rw [if_neg hg, if_pos hc]
+
+/-- the form the callers use: unless it is (still) in the commit step, the node is at round `r` or later -/
+theorem enterNewRound_round_ge' (cfg : Config) (nb : Option Nat) (r : Nat) (σ : State) :
+    (enterNewRound cfg nb σ.height r σ).step ≠ .commit → r ≤ (enterNewRound cfg nb σ.height r σ).round := by
+  by_cases hc : σ.step = .commit
+  · rw [enterNewRound_commit cfg nb _ r σ hc]
+    intro h; exact absurd hc h
+  · exact fun _ => enterNewRound_round_ge cfg nb r σ hc
 
 /-! ### inputs -/
 
@@ -408,7 +516,7 @@ theorem afterPrecommit_inv {cfg : Config} {σ : State} (I : Inv cfg σ) (nb : Op
   simp only
   split
   · have J1 := enterNewRound_inv I nb σ.height vr
-    have J2 := enterPrecommit_inv J1 σ.height vr (enterNewRound_round_ge cfg nb vr σ)
+    have J2 := enterPrecommit_inv' J1 σ.height vr (enterNewRound_round_ge' cfg nb vr σ)
     split
     · exact enterCommit_inv J2 _ _
     · exact enterPrecommitWait_inv J2 _ _
